@@ -280,3 +280,24 @@ def run(ctx):
     from engine.tagseq import tag_seq
     tag_seq(ctx, prog)
 
+
+    ctx.rule('COOKIE-SIZE', 'ALAC in CAF: the capacity alac_get_magic_cookie_size reports (stored as kuki_size and handed back as the buffer capacity at close) covers what alac_get_magic_cookie '
+             'needs before it emits anything: the range of the size query equals the range of theCookieSize at the `*ioSize >= theCookieSize` test (a smaller answer for > 2 channels closes '
+             'the file with an empty kuki chunk, and it cannot be re-opened)', floor=1)
+    from engine.bounds import Bounds as _B
+    from engine.effects import Effects as _E
+    qf, cf = prog.fn('alac_get_magic_cookie_size'), prog.fn('alac_get_magic_cookie')
+    eb = _B(prog, cf, _E(prog))
+    rr = eb._ret_range('alac_get_magic_cookie_size')
+    need = None
+    for n in cf.walk():
+        if n['k'] == 'IfStmt' and 'theCookieSize' in cf.s(n['cond']) and '>=' in cf.s(n['cond']):
+            c_ = cf.unwrap(cf.N[n['cond']])
+            need = eb.ev_at(cf.unwrap(cf.N[c_['kids'][1]]), cf.cfg.point(n) or cf.cfg.point(cf.N[n['cond']]))
+    ctx.require(rr is not None and need is not None and need.lo is not None and need.hi is not None, 'COOKIE-SIZE: size query range %r, need %r' % (rr, need))
+    okc = rr[0] == need.lo and rr[1] == need.hi
+    ctx.ob('COOKIE-SIZE', 'alac_get_magic_cookie_size', okc, qf.loc(qf.body), 'size query returns [%d, %d]; the cookie writer needs [%d, %d]%s' % (rr[0], rr[1], need.lo, need.hi,
+           '' if okc else ': the capacity reported is not what the writer needs - the cookie is dropped (size 0) or the buffer is too small'), None)
+
+    from engine.run import borrow
+    borrow(ctx, 'C04', ['CODEC-ID'], 'an accepted combination must re-open as the same encoding: the code a writer arm emits is mapped back to its subformat by the reader')
